@@ -3,6 +3,7 @@ package c01
 import (
 	"encoding/json"
 	"fmt"
+	"strings"
 
 	sentinel "github.com/alibaba/sentinel-golang/api"
 	"github.com/alibaba/sentinel-golang/core/base"
@@ -199,7 +200,18 @@ func runConc(c *props.Ctx) {
 		}
 		c.R.Sample(map[string]interface{}{"concurrent": s.name(), "schedules": res.Execs, "bound": bound})
 		for _, v := range res.Violations {
-			c.R.Violate(report.Violation{Signature: "C01:concurrent:" + v.Outcome, What: v.What, Scenario: s.name(),
+			cls := v.Outcome
+			if cls == "" {
+				cls = "accounting-mismatch"
+				if strings.Contains(v.What, "concurrency of") {
+					cls = "gauge-mismatch"
+				} else if strings.Contains(v.What, "hotspot per-value") {
+					cls = "hotspot-counter-not-zero"
+				} else if strings.Contains(v.What, "missing node") {
+					cls = "missing-node"
+				}
+			}
+			c.R.Violate(report.Violation{Signature: "C01:concurrent:" + cls, What: v.What, Scenario: s.name(),
 				Replay: concReplay{Kind: "conc", Progs: s.Progs, Choices: v.Choices}})
 		}
 	}
